@@ -26,7 +26,7 @@ Template directives (all start with `//@@`; payloads in <<< >>> may span lines):
   //@@ R7 <writer-ident>                 rule R7, mechanical: every write!(W, FMT, ..)? / W.write_all(..)? becomes
                                          emit_last / emit_byte of the LAST byte written; dead lets are dropped
   //@@ R12                               rule R12: code under #[cfg(feature = "tracing")] removed (feature off), #[allow(..)] dropped
-  //@@ R10 <writer-ident>                rule R10, mechanical: every write!/writeln!(W, FMT, ..) / W.write_all(b"..") becomes the
+  //@@ R10 <writer-ident> [expr] [mode=record]   rule R10, mechanical (mode=record: literals are cut at `,` and newline only, every other piece is an emit_lit): every write!/writeln!(W, FMT, ..) / W.write_all(b"..") becomes the
                                          sequence of typed emissions it performs (see r10_edits)
   //@@ CUT <<<start>>> <<<end>>>          drop the source text from `start` up to (not including) `end`;
                                          the number of dropped lines is reported in the evidence
@@ -183,6 +183,26 @@ def _fmt_pieces(fmt):
     return out
 
 
+def _lit_tokens_record(text):
+    """record sections: literal text is cut at newlines and commas; `[Name]` alone on a line is a
+    header; every other literal piece is kept verbatim"""
+    toks = []
+    for k, seg in enumerate(text.split('\n')):
+        if k > 0:
+            toks.append(('nl',))
+        if not seg:
+            continue
+        if re.fullmatch(r'\[\w+\]', seg):
+            toks.append(('header', seg))
+            continue
+        for k2, piece in enumerate(seg.split(',')):
+            if k2 > 0:
+                toks.append(('comma',))
+            if piece:
+                toks.append(('lit', piece))
+    return toks
+
+
 def _lit_tokens(text):
     """literal text -> typed emission tokens (purely lexical classification)"""
     toks = []
@@ -208,7 +228,7 @@ def _lit_tokens(text):
     return toks
 
 
-def r10_edits(body, msk, writer, log, cuts=(), wexpr=None):
+def r10_edits(body, msk, writer, log, cuts=(), wexpr=None, record=False):
     """R10, mechanical (key: value sections): every `write!` / `writeln!(W, "FMT", args..)` and
     `W.write_all(b"..")` becomes the sequence of TYPED emissions it performs, in order:
       literal `[Name]` -> emit_header(W, "[Name]")    literal newline -> emit_nl(W)
@@ -219,6 +239,7 @@ def r10_edits(body, msk, writer, log, cuts=(), wexpr=None):
     from extract import match_close
     edits = []
     wx = wexpr or writer   # how the writer is passed on (`&mut writer` where the code holds it by value)
+    lit_tokens = _lit_tokens_record if record else _lit_tokens
 
     def render(tokens, q_last):
         calls = []
@@ -231,6 +252,9 @@ def r10_edits(body, msk, writer, log, cuts=(), wexpr=None):
                 calls.append(f'emit_comma({wx})')
             elif t[0] == 'header':
                 calls.append(f'emit_header({wx}, "{t[1]}")')
+            elif t[0] == 'lit':
+                esc = t[1].replace('\\', '\\\\').replace('"', '\\"')
+                calls.append(f'emit_lit({wx}, "{esc}")')
             elif t[0] == 'version':
                 calls.append(f'emit_version_prefix({wx})')
             elif t[0] == 'keytext':
@@ -272,7 +296,7 @@ def r10_edits(body, msk, writer, log, cuts=(), wexpr=None):
         toks, npos = [], 0
         for pc in _fmt_pieces(fmt):
             if pc[0] == 'lit':
-                toks.extend(_lit_tokens(pc[1]))
+                toks.extend(lit_tokens(pc[1]))
             else:
                 if pc[1] is None:
                     if npos >= len(positional):
@@ -302,7 +326,7 @@ def r10_edits(body, msk, writer, log, cuts=(), wexpr=None):
         tail = re.match(r'\s*\?', body[end:])
         if tail:
             end += tail.end()
-        edits.append((m.start(), end, render(_lit_tokens(_unescape_rust(bm.group(1))), bool(tail))))
+        edits.append((m.start(), end, render(lit_tokens(_unescape_rust(bm.group(1))), bool(tail))))
         log['R10 write_all -> typed emissions'] = log.get('R10 write_all -> typed emissions', 0) + 1
     return edits
 
@@ -567,7 +591,10 @@ def transform_body(body, dirs, log):
         elif kind == 'R12':
             edits.extend(r12_edits(body, msk, log))
         elif kind == 'R10':
-            edits.extend(r10_edits(body, msk, d[1], log, _cut_regions(body, msk, dirs), d[2]))
+            opt = d[2] or ''
+            rec = 'mode=record' in opt.split()
+            wexpr = ' '.join(x for x in opt.split() if x != 'mode=record') or None
+            edits.extend(r10_edits(body, msk, d[1], log, _cut_regions(body, msk, dirs), wexpr, rec))
         elif kind == 'PRE':
             edits.append((0, 0, d[1] + '\n'))
             log['R5 proof insert'] = log.get('R5 proof insert', 0) + 1
